@@ -114,25 +114,10 @@ pub(crate) fn cl_value(i: usize) -> (HeaderValue, bool) {
     }
 }
 
-//@ props: C17
-//@ tier: quick
-//@ unwind: 5
-//@ unwindset: memcmp=20 from_static=8 from_bytes=4 is_visible_ascii=4
-//@ timeout: 1200
-//@ encodes: AmendedRequest::analyze (Host / Content-Length cardinality, text / numeric checks, framing selection), AmendedRequest::headers, headers_get_all, set_header, HeaderMap::append/iter
-//@ vars: method in {GET, POST}; version 1.1; original Host in {absent, text, non-text}; caller-added Host in {absent, text}; original Content-Length in {absent, 5, 0, -1, x, empty, 0xFF}; caller-added Content-Length in {absent, 7}; despite-flag: bool; wanted mode none/chunked
-//@ bounds: the stated menu (2 x 3 x 2 x 7 x 2 x 2 x 2 combinations)
-//@ outside: header values outside the menu (e.g. numbers with whitespace or a sign, values > u64::MAX)
-//@ clause: Err exactly for: >1 Host, >1 Content-Length, non-textual Host, non-numeric Content-Length, body on a body-less method (unless despite), body-taking method without body; otherwise Ok with req_host_header <=> a Host is present and the sized mode carrying the caller's number
-#[kani::proof]
-fn c17_analyze_host_and_length_menu() {
+fn c17_menu_case(oh: usize, ah: bool, ocl: usize, acl: bool) {
     let post: bool = kani::any();
     let skip: bool = kani::any();
     let with_body: bool = kani::any();
-    let oh = any_idx(3);
-    let ah: bool = kani::any();
-    let ocl = any_idx(7);
-    let acl: bool = kani::any();
     let mut req = mk_request(if post { 2 } else { 0 }, 2);
     if oh == 1 {
         req.headers_mut().append(HOST, HeaderValue::from_static("a.test"));
@@ -162,7 +147,7 @@ fn c17_analyze_host_and_length_menu() {
 
     let n_host = (oh > 0) as usize + ah as usize;
     let n_cl = (ocl > 0) as usize + acl as usize;
-    // the first effective Host is the caller-added one if present
+    // with a single Host it is non-textual only in original-menu entry 2
     let host_nontext = n_host == 1 && oh == 2;
     let cl_bad = n_cl == 1 && ocl > 0 && !cl_ok;
     let has_body = n_cl == 1 || with_body;
@@ -172,13 +157,8 @@ fn c17_analyze_host_and_length_menu() {
         Err(e) => {
             assert!(expect_err, "C17/valid-request-accepted");
             if n_host > 1 {
-                assert!(e == Error::TooManyHostHeaders, "C17/too-many-host-kind");
+                assert!(matches!(e, Error::TooManyHostHeaders), "C17/too-many-host-kind");
             }
-            kani::cover!(n_host > 1, "two-hosts");
-            kani::cover!(n_host <= 1 && n_cl > 1, "two-content-lengths");
-            kani::cover!(host_nontext && n_cl <= 1, "non-text-host");
-            kani::cover!(cl_bad && n_host <= 1 && !host_nontext, "bad-content-length");
-            kani::cover!(ocl == 6 && cl_bad, "non-utf8-content-length");
             core::mem::forget(e);
         }
         Ok(info) => {
@@ -194,9 +174,124 @@ fn c17_analyze_host_and_length_menu() {
             } else {
                 assert!(info.body_mode.is_chunked() == with_body, "C02/default-mode-as-wanted");
             }
-            kani::cover!(n_cl == 1 && cl_val == 0 && post, "content-length-zero-accepted-on-post");
-            kani::cover!(n_cl == 1 && !post && skip, "despite-method-with-length");
+            kani::cover!(true, "accepted-reachable");
         }
     }
+    kani::cover!(expect_err, "rejection-class-reachable");
     core::mem::forget(ar);
 }
+
+//@ props: C17
+//@ tier: quick
+//@ unwind: 5
+//@ unwindset: memcmp=9 from_static=8 eq_ignore_ascii_case=18 3all5check=18 eq_ignore_ascii_case=18 extend_with=10 FnvHasher=10 to_str=10
+//@ timeout: 900|3000
+//@ mem: 16|40
+//@ encodes: AmendedRequest::analyze (Host / Content-Length cardinality, text / numeric checks, framing selection, body-vs-method), AmendedRequest::headers, headers_get_all, set_header, HeaderMap::append/iter
+//@ vars: symbolic: method in {GET, POST}, despite-flag, wanted mode none/chunked. Concrete per harness (one harness per menu cell): original Host in {absent, text, non-text} x caller-added Host in {absent, text}; original Content-Length in {absent, 5, 0, -1, x, empty, 0xFF} x caller-added Content-Length in {absent, 7}
+//@ bounds: the stated menu; version fixed to 1.1 (versions are covered by c17_analyze_version_method_table)
+//@ outside: header values outside the menu (numbers with whitespace or sign, values > u64::MAX), more than two headers of a kind
+//@ clause: Err exactly for: >1 Host, >1 Content-Length, non-textual Host, non-numeric Content-Length, body on a body-less method (unless despite), body-taking method without body; otherwise Ok with the host/framing flags and the sized mode carrying the caller's number
+#[kani::proof]
+fn c17_cell_no_headers() {
+    c17_menu_case(0, false, 0, false);
+}
+
+//@ like: c17_cell_no_headers
+//@ tier: thorough
+#[kani::proof]
+fn c17_cell_host_orig() {
+    c17_menu_case(1, false, 0, false);
+}
+
+//@ like: c17_cell_no_headers
+//@ tier: thorough
+#[kani::proof]
+fn c17_cell_host_added() {
+    c17_menu_case(0, true, 0, false);
+}
+
+//@ like: c17_cell_no_headers
+//@ tier: thorough
+#[kani::proof]
+fn c17_cell_host_orig_plus_added() {
+    c17_menu_case(1, true, 0, false);
+}
+
+//@ like: c17_cell_no_headers
+//@ tier: thorough
+#[kani::proof]
+fn c17_cell_host_nontext() {
+    c17_menu_case(2, false, 0, false);
+}
+
+//@ like: c17_cell_no_headers
+//@ tier: thorough
+#[kani::proof]
+fn c17_cell_host_nontext_plus_added() {
+    c17_menu_case(2, true, 0, false);
+}
+
+//@ like: c17_cell_no_headers
+//@ tier: thorough
+#[kani::proof]
+fn c17_cell_cl_5() {
+    c17_menu_case(1, false, 1, false);
+}
+
+//@ like: c17_cell_no_headers
+//@ tier: thorough
+#[kani::proof]
+fn c17_cell_cl_0() {
+    c17_menu_case(1, false, 2, false);
+}
+
+//@ like: c17_cell_no_headers
+//@ tier: thorough
+#[kani::proof]
+fn c17_cell_cl_neg() {
+    c17_menu_case(1, false, 3, false);
+}
+
+//@ like: c17_cell_no_headers
+//@ tier: thorough
+#[kani::proof]
+fn c17_cell_cl_x() {
+    c17_menu_case(1, false, 4, false);
+}
+
+//@ like: c17_cell_no_headers
+//@ tier: thorough
+#[kani::proof]
+fn c17_cell_cl_empty() {
+    c17_menu_case(1, false, 5, false);
+}
+
+//@ like: c17_cell_no_headers
+//@ tier: thorough
+#[kani::proof]
+fn c17_cell_cl_nonutf8() {
+    c17_menu_case(1, false, 6, false);
+}
+
+//@ like: c17_cell_no_headers
+//@ tier: thorough
+#[kani::proof]
+fn c17_cell_cl_added() {
+    c17_menu_case(1, false, 0, true);
+}
+
+//@ like: c17_cell_no_headers
+//@ tier: thorough
+#[kani::proof]
+fn c17_cell_cl_5_plus_added() {
+    c17_menu_case(1, false, 1, true);
+}
+
+//@ like: c17_cell_no_headers
+//@ tier: thorough
+#[kani::proof]
+fn c17_cell_cl_x_plus_added() {
+    c17_menu_case(0, true, 4, true);
+}
+
